@@ -170,8 +170,15 @@ fn raw_unix_client(peer: &str, listener: &str) -> i32 {
             "path20" => { fill(&mut a, 0, 20); Some(2 + 20 + 1) }
             "path107" => { fill(&mut a, 0, 107); Some(2 + 107 + 1) }
             "path108" => { fill(&mut a, 0, 108); Some(2 + 108) } // no terminator fits: the kernel reports one more
-            "abstract" => { fill(&mut a, 1, 5); Some(2 + 1 + 5) }
-            "abstract_full" => { fill(&mut a, 1, 107); Some(2 + 108) }
+            // (abstract names are global to the network namespace: make them unique per process)
+            "abstract" | "abstract_full" => {
+                let n = if peer == "abstract" { 12 } else { 107 };
+                fill(&mut a, 1, n);
+                for (k, b) in std::process::id().to_string().bytes().enumerate() {
+                    a.sun_path[1 + k] = b as libc::c_char;
+                }
+                Some(2 + 1 + n)
+            }
             "autobind" => Some(2),
             _ => None,
         };
